@@ -31,6 +31,8 @@ type Job struct {
 	StopAtFirst bool
 	ValidatePaths int // number of completed paths to hand to native validation
 	Note string
+	Cross string // back end used for cross-checking (default z3 4.8.12 for z3-new primaries)
+	CrossTimeout time.Duration
 }
 
 type Input struct {
@@ -570,11 +572,18 @@ func (e *Engine) verdict(extra *Term, kind string) (Result, map[string]uint64, s
 		_ = disagree
 	} else if cross {
 		// independent second opinion
-		other := "cvc5"
-		if strings.HasPrefix(e.job.Primary, "cvc5") {
-			other = "z3"
+		other := e.job.Cross
+		if other == "" {
+			other = "cvc5"
+			if strings.HasPrefix(e.job.Primary, "cvc5") {
+				other = "z3"
+			}
 		}
-		r2, _ := OneShot(contextBackground(), BackendByName(other), script, e.job.VerdictTimeout, e.stats, kind+"-crosscheck")
+		ct := e.job.CrossTimeout
+		if ct == 0 {
+			ct = 20 * time.Second
+		}
+		r2, _ := OneShot(contextBackground(), BackendByName(other), script, ct, e.stats, kind+"-crosscheck")
 		e.res.CrossChecked++
 		if r2 != Unknown && r2 != r {
 			e.res.Disagreements++
